@@ -88,6 +88,8 @@ def run(tier):
         raise vp.ToolError("serde_probe died with %s" % p.returncode)
     res = {}
     for line in p.stdout.decode().split("\n"):
+        if not line.strip():
+            continue
         x = json.loads(line)
         res[x["id"]] = x
     for i, v in enumerate(vecs):
